@@ -33,7 +33,7 @@ def shards(tier, seed):
 
 def floors(tier):
     f = {"solves": 70, "solves:default_construction": 3, "entries:checked": 120, "entries:graph_differs_from_target": 30, "generates:branches": 200,
-         "generates:compiles": 300, "entries:with_conversion_gates": 20}
+         "generates:compiles": 300, "entries:with_conversion_gates": 20, "targets:permuted_node_insertion_order": 5}
     for mth in METHODS:
         f["method:" + str(mth)] = 3
     return f
@@ -104,7 +104,14 @@ def check_case(cseed, nmax, ctx, m, mon, state):
     ctx.count("method:" + (str(setting["lc_method"]) if setting else "default"))
     if default:
         ctx.count("solves:default_construction")
-    g = gq.nx_from_adj(A)
+    # node labels are inserted in a permuted order in a third of the graph-typed targets: qubit i is the i-th inserted
+    # node, the relabel map is keyed by node label
+    order = None
+    if rep in ("nx", "g") and rng.random() < 0.35:
+        order = [int(v) for v in rng.permutation(n)]
+        case["node_insertion_order"] = order
+        ctx.count("targets:permuted_node_insertion_order")
+    g = gq.nx_from_adj(A, order)
     if rep == "nx":
         target = g
     else:
@@ -151,7 +158,13 @@ def check_case(cseed, nmax, ctx, m, mon, state):
         if sorted(rmap.keys()) != list(range(n)) or sorted(rmap.values()) != list(range(n)):
             ctx.violation("relabel_map_is_not_a_bijection", case, {**entry, "map": rmap}, key="map_bijection")
             continue
-        B = graphs.relabel(A, [rmap[u] for u in range(n)])
+        # the target renamed by the map: label u (an edge list over labels) goes to position rmap[u]
+        labels = list(range(n)) if order is None else order        # label of the i-th inserted node; A is in insertion order
+        B = np.zeros((n, n), dtype=int)
+        for i in range(n):
+            for j in range(n):
+                if A[i, j]:
+                    B[rmap[labels[i]], rmap[labels[j]]] = 1
         if not np.array_equal(G, A):
             nontrivial = True
             ctx.count("entries:graph_differs_from_target")
